@@ -61,6 +61,7 @@ func runFault(w *vt.W, id, cs, np int, conc bool, site string, k int, ac bool) {
 	mdir := m.VerifDir()
 	count := 0
 	injected := false
+	noFile := false
 	hider := int64(0)
 	var hookMu sync.Mutex // background writers call the hook concurrently
 	morass.VerifStep = func(mm *morass.Morass, s string, i int) {
@@ -84,16 +85,24 @@ func runFault(w *vt.W, id, cs, np int, conc bool, site string, k int, ac bool) {
 		case site == "encode" && (s == "write.registered" || s == "write.encoded"):
 			if count == k && !injected {
 				fs := m.VerifFiles()
-				fs[len(fs)-1].Close()
-				// a close after the last element makes the following Sync fail instead: still one failed operation
-				injected = true
+				if len(fs) == 0 {
+					noFile = true // a writer encodes before any run file is registered: judged, not injected
+				} else {
+					fs[len(fs)-1].Close()
+					// a close after the last element makes the following Sync fail instead: still one failed operation
+					injected = true
+				}
 			}
 			count++
 		case site == "sync" && s == "write.presync":
 			if count == k && !injected {
 				fs := m.VerifFiles()
-				fs[len(fs)-1].Close()
-				injected = true
+				if len(fs) == 0 {
+					noFile = true
+				} else {
+					fs[len(fs)-1].Close()
+					injected = true
+				}
 			}
 			count++
 		case (site == "seek" || site == "decode") && s == "final.scan":
@@ -205,5 +214,5 @@ func runFault(w *vt.W, id, cs, np int, conc bool, site string, k int, ac bool) {
 	_, statErr := os.Stat(mdir)
 	w.Emit(vt.Ev{"op": "faultrun", "id": id, "cs": cs, "npush": np, "conc": conc, "site": site, "k": k,
 		"injected": wasInjected, "reported": reported, "pulled": got, "complete": complete,
-		"clearerr": clearErr, "clearinjected": clearInjected, "cleanuperr": cleanErr, "dirleft": statErr == nil})
+		"clearerr": clearErr, "clearinjected": clearInjected, "nofile": noFile, "cleanuperr": cleanErr, "dirleft": statErr == nil})
 }
